@@ -24,7 +24,7 @@ TARGETS = ["theories/Props/C20.vo", "theories/Proofs/GenEq_StatParse.vo"]
 GENEQ = {"theories/Proofs/GenEq_StatParse.vo": "StatParse"}
 ALLOWED_AXIOMS = []
 RULE = ("case = a table written directly as .tsv: 1-4 groups (nasty names) x 1-4 metrics x 1-9 subjects (names may repeat), "
-        "each cell finite (repr of a double: small integers, halves, 0.1+0.2, 1/3, random, tiny, negative, repeated values), "
+        "each cell finite (repr of a double: small integers, halves, 0.1+0.2, 1/3, random at several scales, negative, repeated values; magnitudes 2^-40..2^17 -- extreme exponents are C18's stream, they only make the exact rational engine slow), "
         "empty, nan, inf or -inf in various spellings; columns without any finite value occur; plus a row permutation of "
         "the same table. non-trivial = some column holds both a missing and at least two finite values")
 ASSUMPTIONS = [
@@ -50,10 +50,11 @@ TECHNIQUE = "machine-checked proof in Rocq (Coq) + AST re-translation (GenEq) + 
 TOL = Fraction(1, 2 ** 30)
 
 
-def close(x, q: Fraction) -> bool:
+def close(x, q: Fraction, scale=1) -> bool:
+    """|x - q| <= 2^-30 * max(1, |q|, scale); scale = magnitude of the summands (float cancellation is not modelled)"""
     if not isinstance(x, float) or math.isnan(x) or math.isinf(x):
         return False
-    return abs(Fraction(x) - q) <= TOL * max(1, abs(q))
+    return abs(Fraction(x) - q) <= TOL * max(1, abs(q), scale)
 
 
 def gen_case(rng):
@@ -83,7 +84,7 @@ def gen_case(rng):
                 elif c < 0.9:
                     v = rng.uniform(-1, 1) * scale
                 else:
-                    v = rng.choice([1e9 + 0.5, -1e9, 123456.789, 5e-324, 1e-300])
+                    v = rng.choice([4096.5, -2048.0, 123456.789, 2.0 ** -40, -1e-9])
                 r.append(rng.choice([repr(v), repr(v), str(int(v)) if v == int(v) and abs(v) < 1e6 and rng.random() < 0.5 else repr(v)]))
         rows.append(r)
     perm = list(range(ns))
@@ -136,9 +137,10 @@ def cmp_summary(where, im, mo, exact_values=True):
         return f"{where}: values contain a non-finite entry {iv}"
     if exact_values and [Fraction(v) for v in iv] != vq:
         return f"{where}: values {iv} are not the finite recorded values {[float(v) for v in vq]}"
-    if not close(s["avg"], Fraction(*avg)):
+    big = max([abs(v) for v in vq] + [1])
+    if not close(s["avg"], Fraction(*avg), big):
         return f"{where}: avg {s['avg']!r} != {float(Fraction(*avg))!r}"
-    if not isinstance(s["std"], float) or math.isnan(s["std"]) or abs(Fraction(s["std"]) ** 2 - Fraction(*var)) > 4 * TOL * max(1, Fraction(*var)):
+    if not isinstance(s["std"], float) or math.isnan(s["std"]) or abs(Fraction(s["std"]) ** 2 - Fraction(*var)) > 4 * TOL * max(1, Fraction(*var), big * big):
         return f"{where}: std {s['std']!r}, std^2 != population variance {float(Fraction(*var))!r}"
     if exact_values:
         if Fraction(s["min"]) != Fraction(*mn) or Fraction(s["max"]) != Fraction(*mx):
@@ -188,8 +190,9 @@ def check_case(case):
                 vio.append(f"row permutation changes whether get_summary({g!r},{m!r}) is defined")
             elif a[0] == "ok":
                 sa, sb = a[1], b[1]
+                big = max([abs(v) for v in sa["values"]] + [1])
                 if sorted(sa["values"]) != sorted(sb["values"]) or sa["min"] != sb["min"] or sa["max"] != sb["max"] \
-                        or not close(sb["avg"], Fraction(sa["avg"])) or not close(sb["std"], Fraction(sa["std"])):
+                        or not close(sb["avg"], Fraction(sa["avg"]), big) or not close(sb["std"], Fraction(sa["std"]), big):
                     vio.append(f"row permutation changes get_summary({g!r},{m!r}): {sa} vs {sb}")
     # across groups
     ma = out[2]
